@@ -4,12 +4,17 @@ import numpy as np
 import core
 import solvercorr as sc
 import solverslices
-from props.c04 import TRUSTED
+import roundedobs
+from props.c04 import TRUSTED, ROUNDED_THEOREM_OF
 
 THEOREMS = ["C07_mirror_x_partial", "C07_mirror_y_partial", "C07_transpose_partial", "C07_length_scaling",
             "C07_velocity_scaling", "C07_velocity_scaling_eig", "C07_sqrt_scale_in_C", "C07_transpose", "C07_transposed_request_geometry",
             "C07_mirror_geometry", "C07_mirror_x", "C07_mirror_x_defect", "C07_mirror_x_odd", "C07_mirror_y", "C07_mirror_y_defect", "C07_mirror_y_odd"]
+# theorems that survive rounding (Properties/RoundedProps.v): the similarity group is exact in rounded arithmetic
+THEOREMS_ROUNDED = ['C07_velocity_scaling_in_rounded_arithmetic', 'C07_length_scaling_in_rounded_arithmetic', 'Rounded_similarity',
+                    'Rounded_float_instance_same_formulas', 'Rounded_binary_rounding_is_homogeneous']
 ASSUMPTIONS = [
+    "C07_velocity_scaling_in_rounded_arithmetic / C07_length_scaling_in_rounded_arithmetic: whole-result equations in rounded arithmetic (RndOps) for a scale factor s with rnd (s x) = s rnd x (arithmetic and storage rounding), s > 0 for the length scaling (the principal square root and the order tests see the sign); the background is divided by s in the velocity scaling and the halo, when given, is a length",
     "array-level mirror: proved for the fields synthesised without the unpaired (Nyquist) column/row of the retained frequency set, as an exact defect identity for the returned arrays, and for the returned arrays themselves when the clamped mode count is odd; dispersion mode under double storage and the default measurement point (no re-centring shift); footprint mode at both precisions",
     "length scaling of the top condition uses sqrt(r/s^2) = sqrt(r)/s (principal root, real s > 0) as a hypothesis",
 ]
@@ -23,8 +28,10 @@ def gen(ctx):
 
 def check(ctx):
     core.check_properties_file(ctx, "Properties/C07.v", THEOREMS, {"C07_sqrt_scale_in_C": core.AX_REALS})
+    core.check_properties_file(ctx, "Properties/RoundedProps.v", THEOREMS_ROUNDED, core.AX_REALS, coqchk=False)
     solverslices.run(ctx)
     cases = gen(ctx)
+    roundedobs.observe(ctx, "C07", cases, ["velocity", "length"], ROUNDED_THEOREM_OF, limit=(20 if ctx.thorough else 6))
     recs = sc.correspond(ctx, cases, "c07_")
     sc.summarize(ctx, cases, recs,
                  "solves with Kx != Ky != Kz, oblique winds, non-square grids and domains; distinct by full argument description",
